@@ -187,11 +187,11 @@ Fixpoint recv_frags (t : table) (a : addr) (fs : list frag) : table * list msg :
       let '(t2, o2) := recv_frags t1 a fs' in (t2, o1 ++ o2)
   end.
 
-(* the tests of the fragment loop that do not depend on the receive state; when one fails the
-   loop is left (break) and the rest of the packet is ignored *)
-Definition frag_ok (rc : rcfg) (magic sex csz total avail : N) : bool :=
-  (magic =? rc_magic rc) && ((rc_sex rc =? 0) || negb (rc_sex rc =? sex))
-  && (csz <=? avail) && (total <=? rc_max_in rc).
+(* the tests of the fragment loop that do not depend on the receive state.  When [frag_ok] fails
+   the loop is left (break) and the rest of the packet is ignored; a fragment of a Message larger
+   than _maxIncomingMessageSize is skipped on its own (SeekRelative(chunkSize); continue) *)
+Definition frag_ok (rc : rcfg) (magic sex csz avail : N) : bool :=
+  (magic =? rc_magic rc) && ((rc_sex rc =? 0) || negb (rc_sex rc =? sex)) && (csz <=? avail).
 
 Fixpoint parse (fuel : nat) (rc : rcfg) (bs : list byte) : list frag :=
   match fuel with
@@ -204,8 +204,9 @@ Fixpoint parse (fuel : nat) (rc : rcfg) (bs : list byte) : list frag :=
       match rd32 b3 with Some (off, b4) =>
       match rd32 b4 with Some (csz, b5) =>
       match rd32 b5 with Some (total, b6) =>
-        if frag_ok rc magic sex csz total (lenN b6) then
-          mkFrag magic sex id off total (takeN csz b6) :: parse fuel' rc (dropN csz b6)
+        if frag_ok rc magic sex csz (lenN b6) then
+          let rest := parse fuel' rc (dropN csz b6) in
+          if total <=? rc_max_in rc then mkFrag magic sex id off total (takeN csz b6) :: rest else rest
         else []
       | None => [] end | None => [] end | None => [] end
       | None => [] end | None => [] end | None => [] end
